@@ -479,7 +479,7 @@ def common_rule(chk, db):
         chk.analysis_broken("COMMON: only %d mixed-type binary duration operators found (floor 6)" % n)
 
 
-META_EXTRA = 'CAST / CONV (conversion arithmetic skeleton count*num/den in the common type; kernel selection); ROUND (floor/ceil/round decision tables, sign-robust parity).'
+META_EXTRA = 'CAST / CONV (conversion arithmetic skeleton count*num/den in the common type; kernel selection); ROUND (floor/ceil/round evaluated as decision procedures, sign-robust parity); COMMON (tick counts read only from operands converted to the common duration); PARAM.'
 META = (META[0] + " " + META_EXTRA, META[1])
 
 
